@@ -63,7 +63,7 @@ class Flow:
                 return {("parm", d["n"], "val")}
             # lambda parameter: bound at the call, unknown here
             return set(self.env.get(d["id"], ()))
-        if k == "local" or k == "binding":
+        if k == "local" or k == "binding" or (k == "global" and d.get("sl")):
             if size_only and is_container_type(d.get("dt", "")):
                 # element writes (v[i] = e) do not change the element count: use the shape environment
                 return {(a[0], a[1], "size") if a[2] == "content" else a for a in self.shape.get(d["id"], set())}
@@ -410,7 +410,7 @@ def _lvalue_locals(t, depth=0):
         return _lvalue_locals(t.c[0], depth + 1)
     if k == "DeclRefExpr":
         d = t.decl
-        if d and d.get("k") in ("local", "binding", "parm"):
+        if d and (d.get("k") in ("local", "binding", "parm") or (d.get("k") == "global" and d.get("sl"))):
             out.append(d["id"])
         return out
     if k == "MemberExpr":
